@@ -72,7 +72,12 @@ def o_msm(case):
         lm2 = 3 - case.get("labelmsm", 1)
         m2 = RTCMMessage(payload=p, labelmsm=lm2)
         res2 = parse_msm(m2)
-        for mm, rr, lmx in ((m, res, case.get("labelmsm", 1)), (m2, res2, lm2)):
+        triples = [(m, res, case.get("labelmsm", 1)), (m2, res2, lm2)]
+        if case.get("other"):
+            m3 = RTCMMessage(payload=bytes.fromhex(case["other"]), labelmsm=lm2)
+            triples.append((m3, parse_msm(m3), lm2))
+        for mm, rr, lmx in triples:
+            ident = mm.identity
             meta_x, sats_x, cells_x = rr
             if meta_x.get("identity") != ident or meta_x.get("sats") != mm.NSat or meta_x.get("cells") != mm.NCell or meta_x.get("station") != mm.DF003:
                 raise Fail("msm-result-changed-by-later-call", f"{ident} labelmsm={lmx}: metadata of an earlier result no longer matches its message after a later parse_msm call")
@@ -94,7 +99,7 @@ def o_msm(case):
 def plan_msm(tier, shard, nshards):
     ids = pins.msm_ids()[shard::nshards]
     n = 25 if tier == "quick" else 800
-    return [(i, st.builds(lambda c, lm: {**c, "labelmsm": lm}, gen.messages(i, "small"), st.sampled_from([1, 2])), n) for i in ids]
+    return [(i, st.builds(lambda c, lm, o: {**c, "labelmsm": lm, "other": o["payload"]}, gen.messages(i, "small"), st.sampled_from([1, 2]), st.sampled_from(pins.msm_ids()).flatmap(lambda j: gen.messages(j, "small"))), n) for i in ids]
 
 
 def o_vtec(case):
